@@ -385,6 +385,35 @@ def run(prog: Program) -> Results:
                 res.add("R-C10-5", ("scopes_for_owner", "producer order"), sfo.loc(st),
                         f"scopes_for_owner skips an append when `{norm(st.test)}`: a scope that already occurs further out keeps only its "
                         f"outer position, so it no longer shadows the scopes between (innermost must come last)")
+    # stored layers keep their stored order (outermost first) on the way into the chain: no segment is taken from its end, and the
+    # helper that turns layers into scopes hands them back in the order it received them
+    for seg in segs or []:
+        if seg[0] == "each":
+            r5.instances += 1
+            r5.ob(not seg[2], {"scopes_for_owner_segment": norm(seg[1])[:50], "reversed": seg[2]})
+            if seg[2]:
+                res.add("R-C10-5", ("scopes_for_owner", "producer order", "segment reversed"), sfo.loc(seg[1]),
+                        f"scopes_for_owner appends the scopes of `{norm(seg[1])[:50]}` from last to first: the innermost of them ends up "
+                        f"outermost in the chain")
+    lh = prog.funcs.get("_collect_scopes_from_layers")
+    if lh is not None and lh.params():
+        outs = SeqBuilder(lh.node).returned()
+        r5.instances += 1
+        res.analysed_functions.add(lh.key)
+        if not outs:
+            res.unclass("_collect_scopes_from_layers: how the returned list is put together was not recognised")
+        else:
+            lp = lh.params()[0]
+            bad = [sg for o in outs for sg in o if sg[0] == "each" and norm(sg[1]) == lp and sg[2]]
+            other = [sg for o in outs for sg in o if not (sg[0] == "each" and norm(sg[1]) == lp)]
+            r5.ob(not bad, {"_collect_scopes_from_layers": [f"{sg[0]}:{norm(sg[1])[:30]}:{'reversed' if sg[0] == 'each' and sg[2] else 'in order'}" for o in outs for sg in o][:4]})
+            if bad:
+                res.add("R-C10-5", ("_collect_scopes_from_layers", "producer order", "layers reversed"), lh.loc(),
+                        f"_collect_scopes_from_layers visits `{lp}` from its end: the let layers come back innermost first, but every "
+                        f"producer appends them as outer-to-inner, so with two or more stacked layers a middle layer is treated as the "
+                        f"innermost one")
+            elif other:
+                res.unclass(f"_collect_scopes_from_layers: a segment that is not one scope per layer of `{lp}` ({other[0][0]}: {norm(other[0][1])[:40]})")
     order = []
     for seg in segs or []:
         k = origin(seg)
